@@ -32,7 +32,11 @@ Agree == LET r == Rec[t] IN
 ShapeOfObj(o) == IF o.k = "arr" THEN [k |-> "arr", n |-> Len(o.elems), fields |-> <<>>, methods |-> <<>>]
                  ELSE [k |-> "obj", n |-> Len(o.fields), fields |-> [i \in 1..Len(o.fields) |-> o.fields[i][1]],
                        methods |-> [i \in 1..Len(o.methods) |-> o.methods[i].n]]
+\* process-level termination rules (C10), for observations made at the command line (r.hasproc):
+\* success <=> exit status 0 and nothing on stderr; failure / rejection <=> normal exit with non-zero status and a diagnostic
+\* on stderr; death by signal (status "crash") matches no rule
+ProcOK == LET r == Rec[t] IN r.hasproc => ((r.status = "ok" => r.errempty) /\ (r.status \in {"fail", "reject"} => ~r.errempty) /\ r.status # "crash")
 Final == ~Stop \/ PrintT(<<"VERDICT", ToJson([id |-> Rec[t].id, st |-> s.st, steps |-> n, frag |-> s.frag, amb |-> s.amb, note |-> s.note,
                                                verdict |-> IF verdict # "ok" THEN verdict ELSE IF s.st = "run" THEN "budget" ELSE "ok",
-                                               agree |-> (s.st # "run" /\ Agree), specout |-> IF s.st # "run" /\ Agree THEN <<>> ELSE s.out, allocs |-> Len(s.heap), shapes |-> IF Rec[t].wantshapes THEN [i \in 1..Len(s.heap) |-> ShapeOfObj(s.heap[i])] ELSE <<>>, outlen |-> Len(s.out)])>>)
+                                               agree |-> (s.st # "run" /\ Agree /\ ProcOK), specout |-> IF s.st # "run" /\ Agree THEN <<>> ELSE s.out, allocs |-> Len(s.heap), shapes |-> IF Rec[t].wantshapes THEN [i \in 1..Len(s.heap) |-> ShapeOfObj(s.heap[i])] ELSE <<>>, outlen |-> Len(s.out)])>>)
 =============================================================================
